@@ -750,13 +750,14 @@ poisoned_session_case(const scenario *sc, int fail_kind, int prior_session)
 	vf_rng r;
 	vscript vs;
 	br_ssl_session_parameters sp;
-	char nm[120], what[300];
+	char nm[160], what[400];
+	unsigned char prior_master[48];
 	int calls_before;
 
 	vf_rng_init(&r, seeds_key, 90 + (uint64_t)fail_kind * 2 + (uint64_t)prior_session);
 	cfg_for(sc, &cc, &sv, sb, &r, 0);
 	snprintf(nm, sizeof nm, "poisoned-session:first-attempt-%s:%s", fail_kind == 0 ? "validator-rejects" : "transport-dies-after-server-hello",
-		prior_session ? "after-an-earlier-good-session" : "fresh-context");
+		prior_session == 2 ? "after-a-session-with-the-rogue-itself-not-to-be-resumed" : prior_session ? "after-an-earlier-good-session" : "fresh-context");
 	snprintf(tp_case, sizeof tp_case, "%s auth-case=%s", scen_desc, nm);
 	tp_pair_init(&p, (uint64_t)seeds_key, 91, TP_CHUNK_WHOLE);
 	p.c.tx_key = 0x9191; p.s.tx_key = 0x1919; p.c.rx_key = p.s.tx_key; p.s.rx_key = p.c.tx_key;
@@ -766,7 +767,11 @@ poisoned_session_case(const scenario *sc, int fail_kind, int prior_session)
 		/* an honest session first: the context then holds a real master secret (unknown to the rogue) */
 		if (!tp_ep_start(&p.c, &cc) || !tp_ep_start(&p.s, &sv) || !tp_handshake(&p, 1000000)) { TP_VIOL("auth-control-failed", "honest first session failed"); tp_pair_free(&p); return; }
 		tp_run_close(&p, 0, 100000);
-		cc.reuse_ctx = 1; cc.resume = 1;
+		/* prior_session 2: the peer of that earlier session is the rogue (it knows that master secret), and the
+		   application does not ask for resumption in the attempt that fails (resume_session = 0) */
+		br_ssl_engine_get_session_parameters(p.c.eng, &sp);
+		memcpy(prior_master, sp.master_secret, 48);
+		cc.reuse_ctx = 1; cc.resume = prior_session == 1;
 		p.c2s.rd = p.c2s.wr = 0; p.s2c.rd = p.s2c.wr = 0;
 	}
 	/* attempt 1: fails after the ServerHello has been processed */
@@ -789,6 +794,7 @@ poisoned_session_case(const scenario *sc, int fail_kind, int prior_session)
 	sv2 = sv; sv2.mismatch_key = 1;
 	rcache.vtable = &rcache_vtable; rcache.version = sp.version; rcache.suite = sp.cipher_suite; rcache.loads = rcache.saves = 0;
 	memset(rcache.master, 0, 48);            /* what a context that never completed a handshake holds */
+	if (prior_session == 2) { memcpy(rcache.master, prior_master, 48); vf_stat("poisoned_session_rogue_knows_earlier_secret", 1); }
 	sv2.cache = &rcache.vtable;
 	tp_ep_free(&p.s);
 	p.c2s.rd = p.c2s.wr = 0; p.s2c.rd = p.s2c.wr = 0;
@@ -1045,7 +1051,7 @@ auth_scenarios(long long seed)
 		/* a session ID learnt from a failed attempt must not be resumable */
 		{
 			int fk, ps;
-			for (fk = 0; fk < 2; fk ++) for (ps = 0; ps < 2; ps ++) poisoned_session_case(&sc, fk, ps);
+			for (fk = 0; fk < 2; fk ++) for (ps = 0; ps < 3; ps ++) poisoned_session_case(&sc, fk, ps);
 		}
 		/* weak server key: honest validator must refuse (RSA kx only: the weak fixture is RSA) */
 		if (kx <= TP_KX_ECDHE_RSA) {
